@@ -83,6 +83,8 @@ will parse the following:
 */
 pub use deserr_internal::Deserr;
 pub use value::{IntoValue, Map, Sequence, Value, ValueKind, ValuePointer, ValuePointerRef};
+#[cfg(feature = "deserr-verif")]
+pub use value::ValuePointerComponent;
 
 use std::ops::ControlFlow;
 
